@@ -115,16 +115,12 @@ def canon_run(result, snap, err):
         if isinstance(v, int) and not isinstance(v, bool) and v > 10 ** 9:
             return names.get(v, 'some generated id')
         return v
-    inst = {}
-    for cls in sorted(snap['instances']):
-        rows = []
+    for cls in sorted(snap['instances']):          # names of the generated identifiers, in order of appearance
         for i, r in enumerate(snap['instances'][cls]):
             for a in G.schema().classes[cls]:
                 if a.kind == 'id' and isinstance(r.get(a.name), int) and r[a.name] > 10 ** 9:
                     names.setdefault(r[a.name], '%s[%d].%s' % (cls, i, a.name))
-        inst[cls] = rows
-    for cls in sorted(snap['instances']):
-        inst[cls] = [dict((k, val(v)) for k, v in r.items()) for r in snap['instances'][cls]]
+    inst = dict((cls, [dict((k, val(v)) for k, v in r.items()) for r in snap['instances'][cls]]) for cls in sorted(snap['instances']))
     return dict(result=val(result), instances=inst, links=dict((k, [list(t) for t in v]) for k, v in snap['links'].items()))
 
 
